@@ -76,6 +76,12 @@ def _gen_settings(rng, name):
         vals = sorted(rng.randint(lo, hi) for _ in range(3))
         if r < 0.25:
             kw["rounds"] = _num(rng, vals[1])
+            # 'rounds' pins default, minimum and maximum at once; each stays overridable on its own
+            r2 = rng.random()
+            if r2 < 0.2:
+                kw[rng.choice(["min_rounds", "min_desired_rounds"])] = _num(rng, vals[0])
+            elif r2 < 0.4:
+                kw[rng.choice(["max_rounds", "max_desired_rounds"])] = _num(rng, vals[2])
         else:
             if rng.random() < 0.6:
                 kw[rng.choice(["min_rounds", "min_desired_rounds"])] = _num(rng, vals[0])
@@ -504,6 +510,18 @@ class _W:
         ctx.check(r[1] is not parent.H, "C09", "using-returned-same-object", f"{parent.base}.using({kw})", hasher=parent.base)
         child.H = r[1]
         self.nodes.append(child)
+        # (3) the derived hasher's configured costs lie inside the format's hard limits -- read from its public attributes, because the
+        # upper limits are far too expensive to observe by hashing (a default beyond them "never yields a hash" only by never being run)
+        hmin, hmax, _, _ = self.hard(parent.base)
+        if parent.base in COST and not parent.dirty:
+            for a in ("default_rounds", "min_desired_rounds", "max_desired_rounds"):
+                try:
+                    v = getattr(child.H, a, None)
+                except Exception:
+                    v = None
+                if isinstance(v, int) and not isinstance(v, bool):
+                    ctx.check((hmin is None or v >= hmin) and (hmax is None or v <= hmax), "C09", "setting-outside-hard-limits",
+                              lambda: f"{parent.base}.using({kw}) -> {a}={v}, hard limits [{hmin}, {hmax}]", hasher=parent.base, attr=a)
         if parent.base in COST and (child.d is not None) and child.d <= max(COST[parent.base][1] * 4, 5000) and parent.base not in LOGCOST \
                 or (parent.base in LOGCOST and child.d is not None and child.d <= COST[parent.base][1] + 2):
             child.expensive = False
